@@ -544,11 +544,12 @@ def rfindPN (c : Cfg) (s : FStr) (a : List Byte) (pos count : Nat) : Res (Option
         rscanLoop s.buf (fun idx => bindR (memcmp s.buf idx a 0 count') fun r => .ok (r = 0)) (pos' + 1)
 def rfindP (c : Cfg) (s : FStr) (a : List Byte) (pos : Nat) : Res (Option Nat) :=
   bindR (cstrlen a) fun n => rfindPN c s a pos n
-/-- `rfind( ch, pos)` -/
+/-- `rfind( ch, pos)`.  Repaired (fix: `pos = mLength - 1` for the default position): the pinned code started on the
+    terminator (`pos = mLength`), so `rfind( '\0')` answered `length()`. -/
 def rfindCh (c : Cfg) (s : FStr) (ch pos : Nat) : Res (Option Nat) :=
   if addW c pos 1 > s.len ∨ s.len = 0 then .ok none
   else
-    let pos' := if pos = npos c then s.len else pos
+    let pos' := if pos = npos c then s.len - 1 else pos
     rscanLoop s.buf (fun idx => bindR (get1 s.buf idx) fun x => .ok (x = ch)) (pos' + 1)
 
 /-- membership in the first `n` bytes of `a` (the hand-written inner loops) -/
@@ -572,8 +573,11 @@ def findLastOfImpl (c : Cfg) (s : FStr) (a : List Byte) (pos count : Nat) (neg :
   let pos' := if pos = npos c then s.len else addW c pos 1
   if subW c pos' 1 ≥ s.len ∨ count = 0 then .ok none
   else rscanLoop s.buf (fun idx => bindR (get1 s.buf idx) fun x => if neg then notR (strchr a x) else strchr a x) pos'
+/-- `find_last_of( str, pos, count)` / `find_last_not_of( str, pos, count)`.  Repaired (fix: `pos >= mLength`):
+    the pinned code tested `pos > mLength`, so with `pos == length()` the loop started on the terminator
+    (`find_last_not_of( "x", length(), 1)` answered `length()`). -/
 def findLastOfPN (s : FStr) (a : List Byte) (pos count : Nat) (neg : Bool) : Res (Option Nat) :=
-  if pos > s.len ∨ count = 0 then .ok none
+  if pos ≥ s.len ∨ count = 0 then .ok none
   else rscanLoop s.buf (fun idx => bindR (get1 s.buf idx) fun x =>
          if neg then notR (memN a count 0 x) else memN a count 0 x) (pos + 1)
 def findLastOfCh (c : Cfg) (s : FStr) (ch pos : Nat) (neg : Bool) : Res (Option Nat) :=
@@ -1043,7 +1047,7 @@ def inDomain (big : Nat) (w : World) (op : Op) : Bool :=
   | .insertItC p _ | .insertItCC p _ _ | .insertItIl p _ | .eraseIt p => derefable x p
   | .erase i _ | .eraseI i => i ≤ n
   | .erase0 => true
-  | .eraseItIt p q => itRange x p q
+  | .eraseItIt p q => itPos x p ≤ itPos x q      -- every range std::string accepts, the empty ones included
   | .pushBack _ | .addC _ | .appendCC _ _ | .appendS _ | .addS _ | .appendF _ | .addF _ => true
   | .popBack => n > 0
   | .appendSPC d p _ | .appendSP d p => p ≤ d.length
@@ -1086,13 +1090,13 @@ def inDomain (big : Nat) (w : World) (op : Op) : Bool :=
      | .find => true
      | .rfind => (match nd with
         | .ppc a _ k => hasNul a && k ≤ (StdString.ofCStr a).length
-        | .c ch p => ch != 0 && (p == none || p.getD 0 < n) && (p.getD 0 != big)
+        | .c _ p => p.getD big == big || p.getD big < n      -- default or explicit `npos`, or a position inside
         | _ => true)
      | .ffo | .ffno => !strchrBased || (!hasNul x && !hasNul pat)
      | .flo | .flno =>
         (!strchrBased || (!hasNul x && !hasNul pat)) &&
         (match nd with
          | .ppc _ p _ => p < n
-         | .f p | .s _ p | .pp _ p | .c _ p => p == none || (p.getD 0 < n && p.getD 0 != big)))
+         | .f p | .s _ p | .pp _ p | .c _ p => p.getD big == big || p.getD big < n))
 
 end CelmaVerif.FixedString
